@@ -135,6 +135,26 @@ theorem C01_gcMark_mono (thread : Obj) (s1 s2 : List Word) (hsub : ∀ w ∈ s1,
 
 end main
 
+/-- **C01 over histories.** For every sequence of allocations, stores into registered objects (pointer stores, container
+    insertions and removals: any new contents), changes of thread-local storage and of the stack, explicit deletions and
+    collection points, starting from any well-formed registry: at every collection of the history, every object
+    reachable at that moment from thread-local storage, a root-registered entry or a stack word stays registered with
+    unchanged contents and is not put on the pending list; and the registry is well formed afterwards. -/
+theorem C01_history_safe {σ : Type} (S : MarkSet σ) (c : Cfg) (ops : List HOp) (s0 : HState) (wf : s0.heap.WF)
+    (hok : ∀ op ∈ ops, op.ok) :
+    (HState.run S c ops s0).1.heap.WF ∧
+    ∀ ev ∈ (HState.run S c ops s0).2, ∀ a,
+      Reachable c ev.before.heap (rootWords c ev.before.heap ev.before.thread ev.before.stack) a →
+        a ∉ ev.pending ∧
+        (collect S c ev.before.heap ev.before.thread ev.before.stack).1.lookup a = ev.before.heap.lookup a ∧
+        (ev.before.heap.lookup a).isSome = true := by
+  obtain ⟨h1, h2⟩ := run_events S c ops s0 wf hok
+  refine ⟨h1, ?_⟩
+  intro ev hev a hr
+  obtain ⟨hwf, hp⟩ := h2 ev hev
+  obtain ⟨e1, e2, e3⟩ := C01_collect_safe S c ev.before.heap hwf ev.before.thread ev.before.stack a hr
+  exact ⟨by rw [hp]; exact e3, e1, e2⟩
+
 /-- **T1 `terminates`.** The marker is a total function on every heap (Lean accepted `dfs` with the measure
     (unmarked registered entries, worklist length)); with the mark bits kept as the list of marking events, no
     entry is marked — hence traced — twice, and only registered entries are marked. -/
@@ -149,6 +169,12 @@ theorem C01_terminates (c : Cfg) (h : Heap) (roots : List Word) :
 theorem C01_rec_agrees {σ : Type} (S : MarkSet σ) (c : Cfg) (h : Heap) (hg : c.guarded = true) (d : Nat)
     (ws : List Word) (m m' : σ) (hok : foldRes (level S c h d).item ws m = .ok m') : m' = dfs S c h ws m :=
   rec_items_agree S c h hg d ws m m' hok
+
+/-- the same for the whole of `GC_Mark` (thread-local storage, root loop, stack words) -/
+theorem C01_gcMark_rec_agrees {σ : Type} (S : MarkSet σ) (c : Cfg) (h : Heap) (hg : c.guarded = true)
+    (ht : c.tlsCallback = true) (wf : h.WF) (d : Nat) (thread : Obj) (stack : List Word) (m' : σ)
+    (hok : gcMarkRec S c h d thread stack = .ok m') : m' = gcMark S c h thread stack :=
+  gcMarkRec_agree S c h hg ht wf d thread stack m' hok
 
 /-- **T2 every collection runs to completion** (the algorithm with the call structure of GC.c, guarded callback): for
     every heap — whatever its size and shape: cycles, sharing, self references, chains — in which Tuples hold pointers
